@@ -99,6 +99,10 @@ func traceSchedule(c *an.Ctx, s *sched, row schedRow) []schedPath {
 		return an.AVal{}, false
 	}
 	ex.Effect = func(in ssa.Instruction, st *an.State) string {
+		// the registration of a hand-made latch counts as the Add
+		if lt := s.chanLatchOf(); lt != nil && lt.doneOK && in == lt.reg {
+			return "Add"
+		}
 		switch x := in.(type) {
 		case *ssa.Go:
 			if x == s.launch {
